@@ -81,6 +81,7 @@ def main(argv):
     errors, violations, known_hits = [], [], []
     n_ob = n_dis = n_bob = n_bdis = 0
     n_undecided = 0
+    n_kf_ob = 0
     solver_s = 0.0
     by_backend, by_class = {}, {}
     samples, canaries, unit_summaries, functions = [], [], [], []
@@ -99,7 +100,15 @@ def main(argv):
         if r["status"] == "error":
             errors.append(f"{u.uid}: " + " | ".join(r["notes"])[:1500])
         bounded = (u.route == "B")
+        kf_names = set()
+        for f in r["failures"]:
+            fc = mod.failure_class(u, f) if hasattr(mod, "failure_class") else None
+            if match_known(known, u.uid, f, fc):
+                kf_names.add(f["name"])
         for ob in r["obligations"]:
+            if ob["name"] in kf_names:
+                n_kf_ob += 1      # refuted today by a recorded known finding: reported, not counted as an obligation
+                continue
             isb = bounded or ob["route"] == "B"
             if isb:
                 n_bob += 1
@@ -143,6 +152,7 @@ def main(argv):
             "trusted_base": trusted,
             "bounded_obligations": n_bob, "bounded_discharged": n_bdis,
             "undecided_refutation_only": n_undecided,
+            "obligations_refuted_by_known_findings": n_kf_ob,
             "obligations_by_backend": by_backend, "obligations_by_class": by_class,
             "functions_under_contract": functions,
             "units": unit_summaries,
@@ -174,11 +184,11 @@ def main(argv):
           f"violations={len(violations)} errors={len(errors)} wall={wall:.0f}s")
     if not a.keep and not errors and not violations:
         shutil.rmtree(bdir, ignore_errors=True)
+    for e in errors:
+        print("ERROR:", e, file=sys.stderr)
     if violations:
         return 1
     if errors:
-        for e in errors:
-            print("ERROR:", e, file=sys.stderr)
         return 2
     if n_ob + n_bob == 0:
         print("ERROR: zero obligations", file=sys.stderr)
@@ -196,6 +206,21 @@ def handle_failure(mod, prop, u, f, r, odir, known, violations, known_hits, erro
             rep = u.replay(u, f)
         except Exception as ex:  # replay machinery failure is a tool error
             rep = {"reproduced": None, "error": repr(ex)}
+    if rep and rep.get("reproduced") is None and not rep.get("error"):
+        # the counterexample is outside what the real class can be instantiated with (e.g. a non-prime
+        # characteristic): ask the verifier for one inside it and replay that
+        f2 = D.rederive_replayable(u, f, os.path.join(D.BUILD, prop))
+        if f2 is not None:
+            try:
+                rep2 = u.replay(u, f2)
+            except Exception as ex:
+                rep2 = {"reproduced": None, "error": repr(ex)}
+            rep2["first_counterexample"] = {"inputs": f["inputs"], "replay": rep}
+            f = dict(f)
+            f["inputs"] = f2["inputs"]
+            rep = rep2
+            fclass = mod.failure_class(u, f) if hasattr(mod, "failure_class") else None
+            k = match_known(known, u.uid, f, fclass)
     doc = {"property": prop, "unit": u.uid, "obligation": f["name"], "class": f["class"], "description": f["desc"],
            "backend": f["backend"], "inputs": f["inputs"], "input_class": fclass, "native_replay": rep,
            "verifier_output": {"status": f["status"], "notes": r.get("notes"), "tu": r.get("tu")},
@@ -205,7 +230,9 @@ def handle_failure(mod, prop, u, f, r, odir, known, violations, known_hits, erro
     if k:
         known_hits.append(f"{u.uid} {f['name']} [{fclass}]: {k.get('what')}")
         return
-    if rep and rep.get("reproduced") is True:
+    if rep and rep.get("error"):
+        errors.append(f"{u.uid} {f['name']}: replay machinery failed: {rep['error'][:600]}")
+    elif rep and rep.get("reproduced") is True:
         violations.append(f"VIOLATION property={prop} replay={rp}")
     elif rep and rep.get("reproduced") is False:
         errors.append(f"{u.uid} {f['name']}: CBMC counterexample {f['inputs']} does NOT reproduce on the real code "
